@@ -218,7 +218,7 @@ def run_writer(cfg, res):
       res.count('cases_with_persistent_backend_fault')
     for rnd in range(nrounds):
       if sick and rnd == sick[0]:
-        memdb.FAULT_OPS[sick[2]] = r.choice(['OSError', 'IOError', 'ValueError'])
+        memdb.FAULT_OPS[sick[2]] = r.choice(['OSError', 'IOError', 'ValueError', 'EINTR', 'EAGAIN', 'ENOSPC'])
       if sick and rnd == sick[1]:
         memdb.FAULT_OPS.clear()
       for _ in range(r.randint(0, 12)):
